@@ -62,6 +62,8 @@ def match_known(d: Divergence, known: List[dict]) -> Optional[dict]:
             continue
         if e.get("why_prefix") and not d.why.startswith(e["why_prefix"]):
             continue
+        if e.get("why_in") and d.why not in e["why_in"]:
+            continue
         when = e.get("when")
         if when in (None, "", "always") or when in d.tags:
             return e
